@@ -48,4 +48,4 @@ void h_bounded_positive_denominator(void)
       }
 }
 void h_K_ossps_clamp_tail(void) { long n; float* p = mk_seq(&n); K_ossps_clamp_tail(p, p + n, nondet_double()); }
-void h_K_relaxation(void) { K_relaxation(nondet_int(), nondet_int()); }
+void h_K_relaxation(void) { K_relaxation(nondet_int(), nondet_int(), nondet_int()); }
